@@ -90,35 +90,22 @@ Definition log_words (w : list str) (_ : str) : list str * list str := (w, nil).
 Definition run_logged (text : str) : option (outcome (list str)) :=
   run_lines (list str) log_run log_words (fun w _ _ => w) (fun _ => false) 8 text nil.
 
-(** With the grammar as it is in the source tree (start rule EXP not anchored):
-    the parse of the unbalanced script SUCCEEDS after the first line, and
-    run_lines runs exactly that line -- the rest is dropped without a diagnostic,
-    the list of results is that of `echo start` alone (status 0). Same for a stray fi.
-    Stated under the decidable hypothesis that the regenerated start rule is not
-    anchored, so that the statement survives the repair (it becomes vacuous). *)
-Theorem C14_unbalanced_refuted : top_anchored l_grammar L_EXP = false ->
-  parse_from l_grammar L_EXP unbalanced_example =
-    POk 11 (skipn 11 unbalanced_example) (Node L_EXP 0 11 (Node L_CMD 0 11 nil :: nil) :: nil)
-  /\ run_logged unbalanced_example = Some (Done (S2 "echo start" :: nil) (0%Z :: nil) false false)
-  /\ run_logged stray_fi_example = Some (Done (S2 "echo one" :: nil) (0%Z :: nil) false false)
-  /\ ~ diagnoses_unbalanced.
-Proof.
-  intro H.
-  assert (E : parse_from l_grammar L_EXP unbalanced_example =
-              POk 11 (skipn 11 unbalanced_example) (Node L_EXP 0 11 (Node L_CMD 0 11 nil :: nil) :: nil)).
-  { revert H. vm_compute. intro H; first [reflexivity | discriminate H]. }
-  split; [exact E|]. split; [|split].
-  - revert H. vm_compute. intro H; first [reflexivity | discriminate H].
-  - revert H. vm_compute. intro H; first [reflexivity | discriminate H].
-  - intro D. specialize (D _ _ _ _ E). revert D. vm_compute. discriminate.
-Qed.
+(** The start rule of the grammar regenerated from the source tree IS anchored at end of input
+    (repaired in 44451af; this is re-checked against grammar.pest on every run) ... *)
+Theorem C14_anchored : top_anchored l_grammar L_EXP = true.
+Proof. vm_compute. reflexivity. Qed.
 
-Theorem C14_refuted : top_anchored l_grammar L_EXP = false -> ~ C14_full.
-Proof. intros H [_ D]. exact (proj2 (proj2 (proj2 (C14_unbalanced_refuted H))) D). Qed.
+(** ... hence a parse that succeeds has consumed the whole script: a text whose remainder cannot be
+    parsed (unclosed if / for / while, stray fi / done / else) is a parse failure, which run_lines
+    reports as a syntax error, running nothing. *)
+Theorem C14_unbalanced_diagnosed : diagnoses_unbalanced.
+Proof. intros text p r k. exact (C14_anchor_sound l_grammar L_EXP C14_anchored text p r k). Qed.
 
-(** ... and once the start rule is anchored, the second half of the property holds. *)
-Theorem C14_anchored_diagnoses : top_anchored l_grammar L_EXP = true -> diagnoses_unbalanced.
-Proof. intros H text p r k. exact (C14_anchor_sound l_grammar L_EXP H text p r k). Qed.
+(** Instances: the two scripts that used to be cut silently are now rejected, and run_lines runs nothing. *)
+Theorem C14_unbalanced_examples :
+  parse_from l_grammar L_EXP unbalanced_example = PFail /\ run_logged unbalanced_example = None /\
+  parse_from l_grammar L_EXP stray_fi_example = PFail /\ run_logged stray_fi_example = None.
+Proof. vm_compute. repeat split. Qed.
 
 Check C14_interp :
   forall (W : Type) (run_line : W -> str -> W * list Z) (for_words : W -> str -> W * list str)
@@ -157,5 +144,6 @@ Proof. vm_compute. repeat split. Qed.
 Print Assumptions C14_interp.
 Print Assumptions C14_parse_partial.
 Print Assumptions C14_anchor_sound.
-Print Assumptions C14_unbalanced_refuted.
-Print Assumptions C14_refuted.
+Print Assumptions C14_anchored.
+Print Assumptions C14_unbalanced_diagnosed.
+Print Assumptions C14_unbalanced_examples.
